@@ -481,6 +481,29 @@ theorem truncate_width_false_witness :
   rfl
 
 open SideBySide in
+/-- **truncate_never_panics.** Since fix d6cf9d0 — the `debug_assert!(width_of_grapheme <= 2)` no longer stands
+in front of the fallback of `truncate_str_impl`: `Generated.wrapTruncAssertsWideCluster = false`, read from
+`src/ansi/mod.rs` on every run — `truncate_str` returns for every line, width and tail, whatever the widths of the
+clusters (3 and more included); with `truncate_width`: what it returns is at most `display_width` columns wide and
+exactly that when it had to cut — a cluster wider than two columns that does not fit is replaced by as many blanks
+as columns are left. -/
+theorem truncate_never_panics (hno : Generated.wrapTruncAssertsWideCluster = false) (s : List Item) (dw : Nat)
+    (tail : List Item) : ∃ out, truncateStr s dw tail = .ok out :=
+  truncateStr_total hno s dw tail
+
+open SideBySide in
+/-- a three-column cluster that does not fit in the two columns left of three: two blanks (the line the assertion
+aborted on before the fix); next to a one-column tail: one blank -/
+example : (if Generated.wrapTruncAssertsWideCluster then
+      (truncateStr [.text [⟨"a", 1⟩, ⟨"👍🏽x", 3⟩, ⟨"b", 1⟩]] 3 []).toOption = none
+    else
+      (truncateStr [.text [⟨"a", 1⟩, ⟨"👍🏽x", 3⟩, ⟨"b", 1⟩]] 3 []).toOption =
+        some [.text [⟨"a", 1⟩, Wrap.spaceG, Wrap.spaceG]] ∧
+      (truncateStr [.text [⟨"a", 1⟩, ⟨"👍🏽x", 3⟩, ⟨"b", 1⟩]] 3 [.text [⟨"→", 1⟩]]).toOption =
+        some [.text [⟨"a", 1⟩, Wrap.spaceG], .text [⟨"→", 1⟩]]) := by
+  decide
+
+open SideBySide in
 /-- **truncate_keeps_escapes.** All escape sequences of the input survive a cut, in order,
 followed by those of the tail (colours are closed properly; C09). -/
 theorem truncate_keeps_escapes (s : List Item) (dw : Nat) (tail out : List Item)
@@ -1069,11 +1092,18 @@ theorem sbs_pad_arms_match (cfg : SbsRow.Cfg) (pw : Nat) (line : List Item) (fil
 
 /-- **sbs_pad_subtraction_guarded.** `panel_width - text_width` (a checked `usize` subtraction) is
 never evaluated with `text_width > panel_width`: padding can only fail inside `truncate_str`
-(its `debug_assert!` on a cluster wider than 2 columns). -/
+(its `debug_assert!` on a cluster wider than 2 columns, removed by fix d6cf9d0: `sbs_pad_never_panics`). -/
 theorem sbs_pad_subtraction_guarded (cfg : SbsRow.Cfg) (pw : Nat) (line : List Item) (fill : Option FillM) (e : Wrap.Err)
     (h : padPanelG cfg pw line fill = .error e) :
     pw < measure line ∧ truncateStr line pw cfg.tail = .error e :=
   padPanelG_error cfg pw line fill e h
+
+/-- **sbs_pad_never_panics.** Since fix d6cf9d0 (`Generated.wrapTruncAssertsWideCluster = false`, read from the
+source on every run) `pad_panel_line_to_width` has no reachable panic point at all: any panel width, any line
+(clusters of any widths), any fill. -/
+theorem sbs_pad_never_panics (hno : Generated.wrapTruncAssertsWideCluster = false) (cfg : SbsRow.Cfg) (pw : Nat)
+    (line : List Item) (fill : Option FillM) : ∃ out, padPanelG cfg pw line fill = .ok out :=
+  padPanelG_total hno cfg pw line fill
 
 /-- **sbs_rows_geometry** (i + ii, changed lines). Every row of a painted subhunk — any alignment,
 any wrapping, any line contents, any gutter — is `left panel ++ right panel` where the left panel
